@@ -3081,8 +3081,11 @@ class Entity(MutableMapping[str, str]):
         key = key.casefold()
         for k in self._keys:
             if k.casefold() == key:
-                # TODO: B909 bug?
-                return self._keys.pop(k)
+                value = self._keys[k]
+                # Remove with __delitem__, so by_target and the node IDs are updated and the
+                # classname stays undeletable. We return straight after, so won't keep iterating.
+                del self[k]
+                return value
         return default
 
     def clear(self) -> None:
